@@ -3,6 +3,7 @@ package rules
 import (
 	"fmt"
 	"go/token"
+	"go/types"
 	"strings"
 
 	"golang.org/x/tools/go/ssa"
@@ -37,14 +38,131 @@ func boolCallGate(p *ana.Prog, fn *ssa.Function, name, callee string, pred func(
 	})
 }
 
-func isTimeNow(v ssa.Value) bool {
-	c, _ := ana.CallOf(v)
-	return c != nil && ana.CalleeName(c.Common()) == "time.Now"
+// isTimeNow: v is the result of time.Now(), or a parameter for which every call site of its
+// function passes such a value (the current time handed down to a helper).
+var c12Prog *ana.Prog
+
+func isTimeNow(v ssa.Value) bool { return isTimeNowN(v, 0) }
+
+func isTimeNowN(v ssa.Value, depth int) bool {
+	if c, _ := ana.CallOf(v); c != nil && ana.CalleeName(c.Common()) == "time.Now" {
+		return true
+	}
+	if in, isIn := v.(ssa.Instruction); isIn && depth < 6 {
+		if u := ana.UniqueReaching(in.Parent(), v); u != nil && u != v {
+			return isTimeNowN(u, depth+1)
+		}
+	}
+	par, ok := v.(*ssa.Parameter)
+	if !ok || depth > 3 || c12Prog == nil {
+		return false
+	}
+	fn := par.Parent()
+	idx := -1
+	for i, q := range fn.Params {
+		if q == par {
+			idx = i
+		}
+	}
+	if idx < 0 {
+		return false
+	}
+	sites := 0
+	for _, g := range c12Prog.AllFuncs {
+		for _, b := range g.Blocks {
+			for _, in := range b.Instrs {
+				ci, ok := in.(ssa.CallInstruction)
+				if !ok {
+					// the function used as a value: callers are not enumerable
+					for _, op := range in.Operands(nil) {
+						if op != nil && *op == ssa.Value(fn) {
+							return false
+						}
+					}
+					continue
+				}
+				cc := ci.Common()
+				if cc.StaticCallee() != fn {
+					for _, a := range cc.Args {
+						if a == ssa.Value(fn) {
+							return false
+						}
+					}
+					continue
+				}
+				sites++
+				if idx >= len(cc.Args) || !isTimeNowN(cc.Args[idx], depth+1) {
+					return false
+				}
+			}
+		}
+	}
+	return sites > 0
+}
+
+// onlyReadOnlyCalls: every call that receives the address of a is a repo function that stores
+// nothing through that parameter.
+func onlyReadOnlyCalls(a *ssa.Alloc) bool {
+	for _, ref := range ana.Referrers(a) {
+		ci, ok := ref.(ssa.CallInstruction)
+		if !ok {
+			continue
+		}
+		f := ci.Common().StaticCallee()
+		if f == nil || f.Blocks == nil {
+			return false
+		}
+		for i, arg := range ci.Common().Args {
+			if arg != ssa.Value(a) || i >= len(f.Params) {
+				continue
+			}
+			par := f.Params[i]
+			writes := false
+			ana.Instrs(f, func(in ssa.Instruction) {
+				switch y := in.(type) {
+				case *ssa.Store:
+					if rootAlloc(y.Addr) == ssa.Value(par) {
+						writes = true
+					}
+				case ssa.CallInstruction:
+					for _, a2 := range y.Common().Args {
+						if rootAlloc(a2) == ssa.Value(par) {
+							if _, isPtr := a2.Type().Underlying().(*types.Pointer); isPtr {
+								writes = true
+							}
+						}
+					}
+				}
+			})
+			if writes {
+				return false
+			}
+		}
+	}
+	return true
+}
+
+// currentKeyLookup: v is p.keys[p.currentID] (plain or comma-ok form); returns the lookup.
+func currentKeyLookup(v ssa.Value) *ssa.Lookup {
+	if ex, ok := v.(*ssa.Extract); ok && ex.Index == 0 {
+		v = ex.Tuple
+	}
+	l, ok := v.(*ssa.Lookup)
+	if !ok {
+		return nil
+	}
+	c1, _ := fieldChain(l.X)
+	c2, _ := fieldChain(l.Index)
+	if c1 == "keys" && c2 == "currentID" {
+		return l
+	}
+	return nil
 }
 
 func checkC12(p *ana.Prog, r *ana.Result) {
 	r.Explain("C12 (structural necessary conditions) for ntske.Provider: lockset - every method that touches keys/currentID/generatedAt either takes p.mu first and releases it by defer, or is generateNext, which is called only from such holders or from the constructor on a not yet shared object; identifiers never repeat - the only store to currentID is currentID+1 behind the MaxInt overflow panic and the only map insert is keys[currentID] after it; validity gates - Get returns (key,true) only through the map hit and IsValidAt(time.Now()) == true, IsValidAt is false exactly on t.Before(NotBefore) || t.After(NotAfter), Current returns without generating only through IsValidAt(now) and !generatedAt.Add(24h).Before(now) and always returns keys[currentID] read after that decision, generateNext stamps generatedAt = NotBefore = time.Now() and NotAfter = generatedAt + 72h, expired keys are deleted only under !IsValidAt; the constants are 24 h and 72 h.")
 	r.Undecided("the derived arithmetic (usable >= 2 days, <= 3 days), wall-clock steps, behaviour over days")
+	c12Prog = p
 	c12Consts(p, r)
 	c12Lock(p, r)
 	c12IDs(p, r)
@@ -187,7 +305,8 @@ func c12IDs(p *ana.Prog, r *ana.Result) {
 					return
 				}
 				nStore++
-				bo, ok := x.Val.(*ssa.BinOp)
+				// the new identifier may travel through a local (key.ID = currentID + 1; currentID = key.ID)
+				bo, ok := resolveLocal(x.Val).(*ssa.BinOp)
 				k := int64(0)
 				if ok {
 					k, _ = ana.ConstInt(bo.Y)
@@ -235,7 +354,7 @@ func c12IDs(p *ana.Prog, r *ana.Result) {
 				// ... or the very value that this function stores into currentID (a local holding currentID+1)
 				ana.Instrs(fn, func(j ssa.Instruction) {
 					if st, ok := j.(*ssa.Store); ok {
-						if c2, _ := fieldChain(st.Addr); c2 == "currentID" && st.Val == x.Key {
+						if c2, _ := fieldChain(st.Addr); c2 == "currentID" && (st.Val == x.Key || resolveLocal(st.Val) == resolveLocal(x.Key)) {
 							after = true
 						}
 					}
@@ -349,10 +468,17 @@ func c12Valid(p *ana.Prog, r *ana.Result) {
 	if cur != nil {
 		fname := ana.FuncName(cur)
 		gens := ana.CallsIn(cur, ana.Q("(*net/ntske.Provider).generateNext"))
-		if len(gens) != 1 {
-			r.Violate("C12.valid", fname, "generate-site", p.Pos(cur.Pos()), fmt.Sprintf("expected one generateNext call in Current, found %d", len(gens)))
+		if len(gens) < 1 {
+			r.Violate("C12.valid", fname, "generate-site", p.Pos(cur.Pos()), fmt.Sprintf("expected a generateNext call in Current, found %d", len(gens)))
 		} else {
-			isGen := func(in ssa.Instruction) bool { return in == gens[0].(ssa.Instruction) }
+			isGen := func(in ssa.Instruction) bool {
+				for _, g := range gens {
+					if in == g.(ssa.Instruction) {
+						return true
+					}
+				}
+				return false
+			}
 			isRet := func(in ssa.Instruction) bool {
 				ret, ok := in.(*ssa.Return)
 				return ok && (cur.Recover == nil || ret.Block() != cur.Recover)
@@ -367,10 +493,8 @@ func c12Valid(p *ana.Prog, r *ana.Result) {
 				if a, ok := c.Args[0].(*ssa.Alloc); ok {
 					for _, ref := range ana.Referrers(a) {
 						if st, ok := ref.(*ssa.Store); ok && st.Addr == ssa.Value(a) {
-							if l, ok := st.Val.(*ssa.Lookup); ok {
-								c1, _ := fieldChain(l.X)
-								c2, _ := fieldChain(l.Index)
-								return c1 == "keys" && c2 == "currentID"
+							if l := currentKeyLookup(st.Val); l != nil {
+								return true
 							}
 						}
 					}
@@ -401,43 +525,87 @@ func c12Valid(p *ana.Prog, r *ana.Result) {
 				{name: "current-key-valid-now", gate: valid},
 				{name: "generated-within-24h", gate: fresh},
 			})
-			// the returned key is keys[currentID] loaded after the decision (after generateNext on that arm)
-			okLoad := false
-			ana.Instrs(cur, func(in ssa.Instruction) {
-				l, ok := in.(*ssa.Lookup)
-				if !ok || l.CommaOk {
+			// the returned key: on every way to a return it is keys[currentID] as looked up with no
+			// generateNext between the lookup and the return, or the result of generateNext (which
+			// returns the key it has just installed)
+			okLoad, nRet := true, 0
+			var why string
+			reachesFrom := func(from ssa.Instruction, toEdge *ana.Edge, toInstr ssa.Instruction) bool {
+				s := &ana.Search{Fn: cur, NoFacts: true}
+				if toEdge != nil {
+					e := *toEdge
+					s.TargetEdge = func(x ana.Edge) bool { return x == e }
+				} else {
+					s.Target = func(x ssa.Instruction) bool { return x == toInstr }
+				}
+				found, _ := s.Run(from)
+				return found
+			}
+			var leaf func(v ssa.Value, e *ana.Edge, at ssa.Instruction, depth int)
+			leaf = func(v ssa.Value, e *ana.Edge, at ssa.Instruction, depth int) {
+				if depth > 8 {
+					okLoad, why = false, "merge structure too deep"
 					return
 				}
-				c1, _ := fieldChain(l.X)
-				c2, _ := fieldChain(l.Index)
-				if c1 != "keys" || c2 != "currentID" {
-					return
+				if u := ana.UniqueReaching(cur, v); u != nil {
+					v = u
 				}
-				// this lookup feeds the return and is not reachable-before generateNext: generateNext's block reaches it
-				feedsRet := false
-				for _, ref := range ana.Referrers(l) {
-					if st, ok := ref.(*ssa.Store); ok {
-						if a, ok := st.Addr.(*ssa.Alloc); ok && a.Comment == "" || ok {
-							_ = a
-							feedsRet = true
+				if ph, ok := v.(*ssa.Phi); ok {
+					for i, x := range ph.Edges {
+						pred := ph.Block().Preds[i]
+						for si, sc := range pred.Succs {
+							if sc == ph.Block() {
+								ed := ana.Edge{From: pred, Succ: si}
+								leaf(x, &ed, nil, depth+1)
+							}
 						}
 					}
-					if _, ok := ref.(*ssa.Return); ok {
-						feedsRet = true
-					}
-				}
-				if !feedsRet {
 					return
 				}
-				s := &ana.Search{Fn: cur, NoFacts: true, Target: func(x ssa.Instruction) bool { return x == gens[0].(ssa.Instruction) }}
-				if found, _ := s.Run(l); !found && l.Block() != cur.Blocks[0] {
-					okLoad = true
+				if ld, ok := v.(*ssa.UnOp); ok && ld.Op == token.MUL {
+					if a, ok := ld.X.(*ssa.Alloc); ok {
+						// a local holding the key: every store that reaches this load
+						for _, sv := range ana.ReachingStores(cur, a)(ld) {
+							if sv == ana.Unknown && onlyReadOnlyCalls(a) {
+								continue // handed to methods that only read it (IsValidAt)
+							}
+							if sv == ana.Zero || sv == ana.Unknown {
+								okLoad, why = false, "the returned variable may be unset"
+								continue
+							}
+							leaf(sv, e, at, depth+1)
+						}
+						return
+					}
 				}
+				if c, _ := ana.CallOf(v); c != nil && ana.CalleeName(c.Common()) == ana.Q("(*net/ntske.Provider).generateNext") {
+					return // the freshly installed key (generateNext: returns-installed-key)
+				}
+				if l := currentKeyLookup(v); l != nil {
+					for _, g := range gens {
+						if reachesFrom(l, nil, g.(ssa.Instruction)) && reachesFrom(g.(ssa.Instruction), e, at) {
+							// a generation between this lookup and the return of its value
+							if e != nil || true {
+								okLoad, why = false, "a key looked up before generateNext ran can be returned after it"
+							}
+						}
+					}
+					return
+				}
+				okLoad, why = false, "the returned value is neither keys[currentID] nor the result of generateNext: "+ana.ValueString(v)
+			}
+			ana.Instrs(cur, func(in ssa.Instruction) {
+				ret, ok := in.(*ssa.Return)
+				if !ok || (cur.Recover != nil && ret.Block() == cur.Recover) || len(ret.Results) == 0 {
+					return
+				}
+				nRet++
+				leaf(ret.Results[0], nil, ret, 0)
 			})
-			if okLoad {
-				r.Ok("C12.valid", fname, "returns-current-after-decision", p.Pos(cur.Pos()), "Current returns keys[currentID] read after the renewal decision (so a freshly generated key is the one returned)")
+			if okLoad && nRet > 0 {
+				r.Ok("C12.valid", fname, "returns-current-after-decision", p.Pos(cur.Pos()), "Current returns keys[currentID] read with no generation in between, or the key generateNext has just installed")
 			} else {
-				r.Violate("C12.valid", fname, "returns-current-after-decision", p.Pos(cur.Pos()), "Current does not return keys[currentID] as read after generateNext may have run (a stale/expired key can be handed out)")
+				r.Violate("C12.valid", fname, "returns-current-after-decision", p.Pos(cur.Pos()), "Current does not always return the current key as it is after the renewal decision (a stale/expired key can be handed out): "+why)
 			}
 		}
 	}
@@ -461,8 +629,81 @@ func c12Valid(p *ana.Prog, r *ana.Result) {
 				na = st
 			}
 		})
+		// the key inserted into the table: its window read off the value that is stored
+		var nbVal, naVal ssa.Value
+		ana.Instrs(gn, func(in ssa.Instruction) {
+			if mu, ok := in.(*ssa.MapUpdate); ok {
+				if ch, _ := fieldChain(mu.Map); ch == "keys" {
+					nbVal = localStructField(mu.Value, []string{"Validity", "NotBefore"}, 0)
+					naVal = localStructField(mu.Value, []string{"Validity", "NotAfter"}, 0)
+				}
+			}
+		})
+		// a generateNext that returns a key returns the one it installed
+		if gn.Signature.Results().Len() == 1 {
+			var installed ssa.Value
+			ana.Instrs(gn, func(in ssa.Instruction) {
+				if mu, ok := in.(*ssa.MapUpdate); ok {
+					if ch, _ := fieldChain(mu.Map); ch == "keys" {
+						installed = mu.Value
+					}
+				}
+			})
+			same := func(a, b ssa.Value) bool {
+				if a == b {
+					return true
+				}
+				la, ok1 := a.(*ssa.UnOp)
+				lb, ok2 := b.(*ssa.UnOp)
+				if ok1 && ok2 && la.Op == token.MUL && lb.Op == token.MUL && la.X == lb.X {
+					// two loads of one local: nothing stored to it in between
+					al, isAl := la.X.(*ssa.Alloc)
+					if !isAl {
+						return false
+					}
+					sa, sb := ana.ReachingStores(gn, al)(la), ana.ReachingStores(gn, al)(lb)
+					if len(sa) != len(sb) {
+						return false
+					}
+					for i := range sa {
+						if sa[i] != sb[i] {
+							return false
+						}
+					}
+					return true
+				}
+				return false
+			}
+			okRet, nRet := installed != nil, 0
+			ana.Instrs(gn, func(in ssa.Instruction) {
+				if ret, ok := in.(*ssa.Return); ok && len(ret.Results) == 1 {
+					nRet++
+					if installed == nil || !same(ret.Results[0], installed) {
+						okRet = false
+					}
+				}
+			})
+			if okRet && nRet > 0 {
+				r.Ok("C12.valid", fname, "returns-installed-key", p.Pos(gn.Pos()), "generateNext returns the key it has just stored under the new identifier")
+			} else {
+				r.Violate("C12.valid", fname, "returns-installed-key", p.Pos(gn.Pos()), "generateNext returns something other than the key it installed (Current would hand out a key that is not the current one)")
+			}
+		}
 		okGen := genAt != nil && isTimeNow(genAt.Val)
 		okNB := false
+		if nb == nil && nbVal != nil && genAt != nil {
+			if ch, _ := fieldChain(nbVal); ch == "generatedAt" || nbVal == genAt.Val {
+				okNB = true
+			}
+		}
+		okNAres := false
+		if na == nil && naVal != nil && genAt != nil {
+			if add, _ := ana.CallOf(naVal); add != nil && ana.CalleeName(add.Common()) == "(time.Time).Add" {
+				ch, _ := fieldChain(add.Common().Args[0])
+				k, _ := ana.ConstInt(add.Common().Args[1])
+				okNAres = (ch == "generatedAt" || add.Common().Args[0] == genAt.Val) && k == 72*3600*1e9
+			}
+		}
 		if nb != nil {
 			ch, _ := fieldChain(nb.Val)
 			okNB = ch == "generatedAt" || (genAt != nil && nb.Val == genAt.Val)
@@ -483,8 +724,13 @@ func c12Valid(p *ana.Prog, r *ana.Result) {
 		} else {
 			r.Violate("C12.valid", fname, "generatedAt<-now", p.Pos(gn.Pos()), "generation time is not stamped with the current time (a key handed out can be older than the renewal interval, or already expired after an idle gap)")
 		}
+		okNA = okNA || okNAres
 		if okNB && okNA {
-			r.Ok("C12.valid", fname, "validity-window", posOf(p, na), "NotBefore <- generatedAt, NotAfter <- generatedAt + 72h")
+			at := p.Pos(gn.Pos())
+			if na != nil {
+				at = posOf(p, na)
+			}
+			r.Ok("C12.valid", fname, "validity-window", at, "NotBefore <- generatedAt, NotAfter <- generatedAt + 72h")
 		} else {
 			r.Violate("C12.valid", fname, "validity-window", p.Pos(gn.Pos()), fmt.Sprintf("validity window is not [generatedAt, generatedAt + 72h] (NotBefore ok=%v, NotAfter ok=%v)", okNB, okNA))
 		}
